@@ -31,7 +31,8 @@ SHAPES = {
     "dict": [ABSENT],
     "Optional[dict]": [NONE],
     "Optional[float]": [NONE, 0.5, 0.0],
-    "Optional[bool]": [NONE, False],
+    "Optional[bool]": [NONE, False, True],
+    "Union[bool, str]": [ABSENT, False],
     # type strings long enough for the emitters' word-wrapper (100 columns) to break them
     LONG_LITERAL: [ABSENT, "hinge"],
     LONG_UNION: [NONE],
